@@ -229,6 +229,11 @@ impl<const H: usize> Reader<H> {
             });
         }
 
+        if payload_len < H {
+            // A valid record always holds its fixed-size header: the length field is corrupt.
+            return Err(ReadError::Crc32cMismatch { offset });
+        }
+
         // Read header + data payload
         let (header, compressed_data) = if payload_len <= OPTIMISTIC_DATA_SIZE
             && optimistic_read_len >= RECORD_HEAD_SIZE + payload_len
@@ -341,6 +346,11 @@ impl<const H: usize> Reader<H> {
                 length: RECORD_HEAD_SIZE + payload_len,
                 flushed_offset,
             });
+        }
+
+        if payload_len < H {
+            // A valid record always holds its fixed-size header: the length field is corrupt.
+            return Err(ReadError::Crc32cMismatch { offset });
         }
 
         let payload = self
